@@ -126,7 +126,7 @@ type vfC18Inst struct {
 
 // vfC18PreOps are the operations recorded before the script starts.
 func vfC18PreOps(workload string) []OperationType {
-	if workload == "mixed" {
+	if workload == "mixed" || workload == "mixed-stable" {
 		return []OperationType{OpWrite, OpRead, OpWrite, OpRead}
 	}
 	return []OperationType{OpDelete, OpDelete, OpDelete}
@@ -209,8 +209,14 @@ func vfC18Case(spec vfC18Spec, cur **vfC18Inst) vsched.Case {
 		// the selector applies decisions of any confidence at any time: with the default
 		// constraints (confidence >= 0.7, i.e. >= 100 recorded operations, and a 30 s stability
 		// period) no script of this size would ever make the monitoring loop change the mode
+		stability := time.Duration(0)
+		if spec.Workload == "mixed-stable" {
+			// same workload, but decisions are held for 30 s of (virtual) time: after the first
+			// accepted decision every differing one takes the selector's stability branch
+			stability = 30 * time.Second
+		}
 		sel := NewConfigSelector(WithSelectorClock(clock), WithSafetyConstraints(SafetyConstraints{
-			MaxCPUPercent: 50, MaxMemoryMB: 100, MinStabilityPeriod: 0, MinConfidence: 0.01}))
+			MaxCPUPercent: 50, MaxMemoryMB: 100, MinStabilityPeriod: stability, MinConfidence: 0.01}))
 		in.sr = NewSmartRebalancer(in.bt, WithDetector(det), WithSelector(sel), WithRebalancerClock(clock), WithReevalInterval(5*time.Microsecond))
 		for _, op := range vfC18PreOps(spec.Workload) {
 			if err := in.sr.RecordOperation(op); err != nil {
@@ -469,6 +475,9 @@ func TestVerif_C18(t *testing.T) {
 					goto done
 				}
 				d.Run(vfC18Case(vfC18Spec{Script: s, Ticks: ps.ticks, Bound: ps.bound, Workload: "mixed"}, &cur))
+				if len(s) == 3+2 && s[0] == vfC18OpSTART {
+					d.Run(vfC18Case(vfC18Spec{Script: s, Ticks: ps.ticks, Bound: ps.bound, Workload: "mixed-stable"}, &cur))
+				}
 			}
 		}
 	}
